@@ -234,6 +234,39 @@ PROPS = {
         "assumptions": ["fs backends may refuse a key; a refusal must leave everything unchanged"],
         "timeout": {"quick": 900, "thorough": 3000},
     },
+    "C15": {
+        "title": "Acknowledged state of the persistent backends survives restart",
+        "harness": "c15",
+        "model": "Model/Mem.v state = the persistent component; Model/Uploader.v ustate = the volatile component dropped by a restart",
+        "rule": "bolt file, multi-bucket fs and single-bucket fs with an on-disk metadata store, each on a real temp directory: 10 (quick) "
+                "/ 120 (thorough) seeded C02-style histories (plus puts of random binary bodies with metadata, keys with spaces and "
+                "UTF-8) interleaved with 1..3 clean restarts (close, re-open the same storage, new server). Before and after every "
+                "restart the full probe (bucket list, listings, GET and HEAD of every key with metadata) is compared with the model, "
+                "whose backend state a restart does not change. distinct_nontrivial = distinct (backend, history, restart).",
+        "explanation": "Theorem: in the model every observable of the object API is a function of the persistent state component alone, "
+                       "so a restart (which only resets the volatile uploader) changes no answer. Tie: before/after-restart probes of "
+                       "the real persistent backends vs the model. PARTIAL: the kill -9 clause (acknowledged writes present, in-flight "
+                       "writes atomic) lives in the OS/bbolt/filesystem; the model treats each acknowledged operation as one atomic "
+                       "transition and cannot exhibit torn writes — not checked in the quick tier.",
+        "assumptions": ["clean restart only (close + reopen); crash consistency of bbolt and of the filesystem is trusted, not modelled"],
+        "timeout": {"quick": 900, "thorough": 3000},
+    },
+    "C01": {
+        "title": "Stored objects come back byte-for-byte with matching size, ETag and metadata",
+        "harness": "c01",
+        "model": "Model/Handlers.v step (OPut / OGet / OHead / OCopy / OList) over Model/Mem.v; ETag = quoted hex MD5 computed by the checker (OCaml Digest), independent of Go's crypto/md5",
+        "rule": "per backend x integrity check on/off: random-byte bodies of 0,1,2,63..65,4095..4097,32767..32769 bytes (and 1 MiB+1; also "
+                "5 MiB+3 in the thorough tier) x 8 keys (spaces, '+', UTF-8, '?', '&', literal %41%2F, ';' ',', a 401-byte nested key) x 3 "
+                "metadata sets (none; Content-Type + x-amz-meta; Content-Type + Content-Encoding + Content-Disposition + a 900-byte "
+                "value), uploaded by PUT (with and without Content-MD5), browser-form POST, copy, and Backend.PutObject; each followed "
+                "by GET and HEAD over HTTP (and through the Backend API) and a listing of the key; later operations on other keys, "
+                "then the same reads again. distinct_nontrivial = distinct (backend, integrity, upload path, size, key).",
+        "explanation": "Theorems: read-your-writes with the exact body and the metadata sent (C01_roundtrip), HEAD/GET agreement, "
+                       "stability under operations on other keys (frame), listing entry = current version. Tie: the responses of the Go "
+                       "handlers and of the Go Backend API vs the extracted model, with length and MD5 recomputed by the checker.",
+        "assumptions": ["metadata: every header sent with the upload must come back unchanged (headers carried over from an overwritten object are allowed in addition)"],
+        "timeout": {"quick": 900, "thorough": 3000},
+    },
 }
 
 # properties whose check is not built yet are listed so the manifest stays honest
